@@ -205,9 +205,9 @@ func (s *c27Scenario) header() string {
 }
 
 func genC27(g *Gen, tier string, w *bufio.Writer) {
-	rounds := 10
+	rounds := 8
 	if tier == "thorough" {
-		rounds = 150
+		rounds = 60
 	}
 	for r := 0; r < rounds; r++ {
 		// ---- install scenarios: every crash point × tear lengths
